@@ -173,6 +173,7 @@ class World:
         self.probes = simfs._Counter()
         self.stats = simfs._Counter()
         self.fs_states = set()
+        self.sets = {}             # named sets of things reached (e.g. distinct thread schedules), counted in evidence
         self.shape = []
         self.step_no = -1
         self.cur = None
@@ -265,6 +266,9 @@ class World:
 
     def note(self, text):
         self.cur["res"].append(str(text))
+
+    def reached(self, name, item):
+        self.sets.setdefault(name, set()).add(item)
 
     # ----- step execution -----
     def apply(self, step):
@@ -450,6 +454,7 @@ class RunResult:
         self.probes = {}
         self.fired = {}
         self.fs_states = []
+        self.sets = {}
         self.shape = None
         self.violation = None   # dict(clause, sig, detail, step)
         self.trace = None       # full replay dict, only when a violation occurred or sample requested
@@ -465,6 +470,7 @@ def _finish(world, res, steps, cfg, prop, seed, tier, faulty, keep_trace):
     res.probes = dict(world.probes)
     res.fired = dict(world.fs.fired)
     res.fs_states = sorted(world.fs_states)
+    res.sets = {k: sorted(v) for k, v in world.sets.items()}
     res.shape = sha(world.shape)
     res.prims = world.fs.prims_total
     res.nontrivial = (world.stats["api_calls"] >= 2 and world.stats["acks"] >= 1
